@@ -61,7 +61,7 @@ fn vec_workload<T: Copy + Default + 'static>(bytes: &[u8]) -> VecOut {
             let len0 = v.len();
             let mut demanded = len0;
             let mut within_reserved = false;
-            match k % 10 {
+            match k % 12 {
                 0 | 1 => {
                     // a run of pushes
                     let cnt = 1 + n * 3;
@@ -115,6 +115,33 @@ fn vec_workload<T: Copy + Default + 'static>(bytes: &[u8]) -> VecOut {
                     within_reserved = true;
                     demanded = demanded.max(v.len());
                 }
+                10 => {
+                    // reserved room must also be honoured by extend() when the iterator's size hint is loose
+                    // (upper bound far above what it really yields)
+                    let cnt = n % 48 + 1;
+                    demanded = len0 + cnt;
+                    v.reserve(cnt);
+                    let (c, p) = (v.capacity(), v.as_ptr() as usize);
+                    v.extend((0..cnt * 40).filter(|x| x % 40 == 0).map(|_| T::default()));
+                    if v.len() != len0 + cnt {
+                        let _u = ledger::enter_user();
+                        out.viol.push(format!("extend with a filtered iterator appended {} elements instead of {cnt}", v.len() - len0));
+                    }
+                    if v.as_ptr() as usize != p || v.capacity() != c {
+                        let _u = ledger::enter_user();
+                        out.viol.push(format!("Vec<{size}-byte>: after reserve({cnt}), extend() with {cnt} items from an iterator whose size hint is (0, Some({})) moved the buffer (capacity {c} -> {})", cnt * 40, v.capacity()));
+                    }
+                }
+                11 => {
+                    // a collection built from a loosely hinted iterator must not be sized by the upper bound
+                    let cnt = n % 16 + 1;
+                    let w: BVec<T> = BVec::from_iter_in((0..cnt * 5000).filter(|x| x % 5000 == 0).map(|_| T::default()), &bump);
+                    if w.len() != cnt || w.capacity() > 4 * cnt + 16 {
+                        let _u = ledger::enter_user();
+                        out.viol.push(format!("Vec<{size}-byte>::from_iter_in of {cnt} items (size hint upper bound {}) has len {} and capacity {}", cnt * 5000, w.len(), w.capacity()));
+                    }
+                    drop(w);
+                }
                 6 => v.clear(),
                 7 => v.truncate(len0 / 2),
                 8 => {
@@ -131,7 +158,7 @@ fn vec_workload<T: Copy + Default + 'static>(bytes: &[u8]) -> VecOut {
             high_water = high_water.max(demanded);
             out.max_len = out.max_len.max(v.len());
             let cap1 = v.capacity();
-            if cap1 != cap0 && !matches!(k % 10, 0 | 1) {
+            if cap1 != cap0 && !matches!(k % 12, 0 | 1) {
                 if cap0 != 0 {
                     out.reallocs += 1;
                 }
@@ -391,7 +418,7 @@ impl Engine for C18Engine {
             v.insert(0, 0);
             v
         });
-        let vecw = (0u8..8, proptest::collection::vec((0u8..10, prop_oneof![4 => 0u8..16, 2 => 16u8..128, 1 => 128u8..=255]), 1..60)).prop_map(|(e, ops)| {
+        let vecw = (0u8..8, proptest::collection::vec((0u8..12, prop_oneof![4 => 0u8..16, 2 => 16u8..128, 1 => 128u8..=255]), 1..60)).prop_map(|(e, ops)| {
             let mut v = vec![1, e];
             for (k, n) in ops {
                 v.push(k);
@@ -456,7 +483,7 @@ impl Engine for C18Engine {
         match bytes.first().cloned().unwrap_or(0) {
             0 => self.inner.describe(&bytes[1..]),
             1 => json!({"family": "Vec/String growth workload", "element": (["u8", "u16", "u32", "u64", "u128", "[u64;3]", "[u64;8]", "String"][(bytes.get(1).cloned().unwrap_or(0) % 8) as usize]),
-                        "ops": bytes.get(2..).unwrap_or(&[]).chunks(2).map(|c| format!("{}({})", ["push-run", "push-run", "extend_from_slice_copy", "extend_from_slice_copy", "extend(iter)", "reserve+fill", "clear", "truncate(half)", "pop-run", "neighbour alloc"][(c[0] % 10) as usize], c.get(1).cloned().unwrap_or(0))).collect::<Vec<_>>()}),
+                        "ops": bytes.get(2..).unwrap_or(&[]).chunks(2).map(|c| format!("{}({})", ["push-run", "push-run", "extend_from_slice_copy", "extend_from_slice_copy", "extend(iter)", "reserve+fill", "clear", "truncate(half)", "pop-run", "neighbour alloc", "reserve+extend(loosely hinted iterator)", "from_iter_in(loosely hinted iterator)"][(c[0] % 12) as usize], c.get(1).cloned().unwrap_or(0))).collect::<Vec<_>>()}),
             _ => json!({"family": "arena capacity partition + volume workload", "min_align": ([1, 2, 4, 8, 16][(bytes.get(1).cloned().unwrap_or(0) % 5) as usize]), "bytes_hex": hex(bytes)}),
         }
     }
